@@ -54,7 +54,9 @@ func c02Str(r *Rng, class int, maxLen int) string {
 	return c02Corpus[r.Intn(len(c02Corpus))]
 }
 
-func c02AnyStr(r *Rng, maxLen int) string { return c02Str(r, r.Pick(0, 0, 2, 2, 3, 3, 4, 5, 5), maxLen) }
+func c02AnyStr(r *Rng, maxLen int) string {
+	return c02Str(r, r.Pick(0, 0, 2, 2, 3, 3, 4, 5, 5), maxLen)
+}
 
 // a string the executable model can upper-case (see c02UpperIsAscii)
 func c02ModelStr(r *Rng, maxLen int) string {
